@@ -13,11 +13,9 @@ import numpy as np
 import common
 import gen_c16
 
-THEOREMS = ['C16_tie_shiftQ', 'C16_tie_shiftF', 'C16_tie_wrapGap', 'C16_tie_centre',
-            'C16_range', 'C16_inverse', 'C16_untouched', 'C16_length', 'C16_gap', 'C16_gap_is_max',
-            'C16_sort_sorted', 'C16_sort_perm',
-            'C16_float_range', 'C16_float_legacy_leaves_cube']
-MODULE = 'NautilusVerif.Properties.C16'
+THEOREMS = ['C16_range', 'C16_inverse', 'C16_untouched', 'C16_length', 'C16_gap', 'C16_gap_is_max', 'C16_sort_sorted', 'C16_sort_perm', 'C16_float_range', 'C16_float_legacy_leaves_cube']
+TIE_THEOREMS = ['C16_tie_shiftQ', 'C16_tie_shiftF', 'C16_tie_wrapGap', 'C16_tie_centre']
+MODULE = [('NautilusVerif.Properties.C16', THEOREMS), ('NautilusVerif.Properties.C16Tie', TIE_THEOREMS)]
 FILES = ['nautilus/bounds/periodic.py']
 
 
@@ -152,6 +150,54 @@ def check_transform(chk, rng, n_centres, n_per):
     return dis
 
 
+def check_multi(chk, rng, n_cases):
+    """several periodic dimensions with different centres, in arbitrary index order: each periodic coordinate must be
+    shifted with its *own* centre, in both directions, and the others left alone"""
+    from nautilus.bounds.periodic import PhaseShift
+    reqs, meta = [], []
+    for case in range(n_cases):
+        n_dim = int(rng.integers(2, 7))
+        k = int(rng.integers(1, n_dim + 1))
+        periodic = rng.permutation(n_dim)[:k]
+        centres = rng.random(k)
+        ps = PhaseShift()
+        ps.periodic = np.array(periodic)
+        ps.centers = np.array(centres)
+        pts = rng.random((12, n_dim))
+        for inverse in (False, True):
+            out = ps.transform(pts, inverse=inverse)
+            back = ps.transform(out, inverse=not inverse)
+            info = {'periodic': [int(x) for x in periodic], 'centres': [float(c).hex() for c in centres],
+                    'inverse': inverse}
+            if out.shape != pts.shape:
+                chk.fail('transform-mutates-or-reshapes', 'shape changed', {'input': info})
+                continue
+            for d in range(n_dim):
+                if d not in periodic and not np.array_equal(out[:, d], pts[:, d]):
+                    chk.fail('non-periodic-coordinate-changed', 'coordinate %d is not periodic but was modified' % d,
+                             {'input': info})
+            if np.any(out < 0) or np.any(out >= 1):
+                chk.fail('transform-leaves-cube:%s' % ('inverse' if inverse else 'forward'),
+                         'multi-dimensional transform left the unit cube', {'input': info})
+            worst = max(circ_dist(float(a), float(b)) for a, b in zip(back.ravel(), pts.ravel()))
+            if worst > Fraction(3, 2 ** 53):
+                chk.fail('round-trip', 'inverse(forward(x)) differs from x by %.3g (modulo one) with %d periodic dimensions'
+                         % (float(worst), k), {'input': info, 'observed': float(worst)})
+            for i, d in enumerate(periodic):
+                for r in range(len(pts)):
+                    reqs.append('shift1 %d %d %d %d %d' % ((1 if inverse else 0,) + me(centres[i]) + me(pts[r, d])))
+                    meta.append((info, int(d), float(pts[r, d]), float(out[r, d])))
+    replies = common.run_driver(reqs)
+    dis = []
+    for (info, d, x, y), rep in zip(meta, replies):
+        m, e = map(int, rep.split())
+        if (m, e) != me(y):
+            dis.append(dict(info, dim=d, x=float(x).hex(), impl=float(y).hex(), model=float(from_me(m, e)).hex()))
+    chk.count(len(reqs), 0)
+    chk.extra['multi_dimension_cases'] = n_cases
+    return dis
+
+
 def PhaseShiftBack(c, col, inverse):
     _, _, out = real_transform([c], [list(col)], inverse)
     return out[:, 0]
@@ -241,11 +287,17 @@ def run(chk):
         chk.notes.append('translator could not regenerate: %s' % notes['untranslatable'])
     chk.prove(MODULE, THEOREMS, {'NautilusVerif/Generated/C16.lean': text})
     if chk.tier == 'thorough':
-        chk.leanchecker([MODULE])
+        chk.leanchecker([m for m, _ in MODULE])
     nc, npc, ncl = (40, 120, 300) if chk.tier == 'quick' else (400, 400, 5000)
     dis_t = check_transform(chk, rng, nc, npc)
     dis_c = check_compute(chk, rng, ncl)
-    chk.cov['disagreements_checked'] = len(dis_t) + len(dis_c)
+    dis_m = check_multi(chk, rng, 40 if chk.tier == 'quick' else 400)
+    chk.cov['disagreements_checked'] = len(dis_t) + len(dis_c) + len(dis_m)
+    if dis_m:
+        keys = {f['key'] for f in chk.failing}
+        chk.correspondence_broken('PhaseShift.transform (several periodic dimensions) vs Shift.F.shift1', dis_m[:10],
+                                  accounted=bool(keys & {'round-trip', 'non-periodic-coordinate-changed',
+                                                         'transform-leaves-cube:forward', 'transform-leaves-cube:inverse'}))
     chk.cov['traces_validated_against_impl'] = chk.cov['evaluations']
     chk.cov['rule'] = ('bit-exact differential of PhaseShift.transform (forward+inverse) and PhaseShift.compute '
                        'against the Dyadic model; inputs directed at the wrap position (c±0.5 mod 1 and ±1..3 ulp), '
